@@ -12,16 +12,16 @@ NA = {
  "C14": "pure function of file content; an injected inconsistency is an input construction, not a fault happening to a running system (DESIGN.md section 5)",
 }
 TEXT = {
- "C01": ("exploration", "seeded histories of create / whole write / region assign / append along any axis / resize on arrays of all 12 element types, rank 1-4, zero extents, extreme values, file x block x array compression, with clean restarts (RO/RW) at arbitrary points; every read path compared with a NumPy reference array after each op and after each reopen", "4 C01"),
+ "C01": ("exploration", "seeded histories of create / whole write / region assign (directly and through DataViews) / append along any axis / resize on arrays of all 12 element types, rank 1-4, zero extents, extreme values, file x block x array compression, with clean restarts (RO/RW) at arbitrary points; every read path (incl. views obtained earlier) compared with a NumPy reference array after each op and after each reopen", "4 C01"),
  "C02": ("exploration", "seeded histories over all entity kinds, attributes, links, deletes, property values, through many handles per entity; at every restart the introspective walk (every public property of every entity) before close must equal the walk after reopen (RO and RW) and the explicit walk must equal the reference model", "4 C02"),
  "C03": ("exploration", "create/delete storms in every container with adversarial names (sort order, non-ASCII, 5 kB, UUID-like), restarts; after each op all access paths of every container (len, iteration, [i], [-i], [name], [id], in, items) must describe the model sequence; ids well-formed, unique, stable", "4 C03"),
  "C04": ("exploration", "link-rich topologies (one target linked from many lists/roles, equal names in several parents and blocks); delete by name/id/index/object or unlink; whole-file walk must equal the model in which ownership closure and every link to it are removed and nothing else changed", "4 C04"),
- "C05": ("exploration", "mutate an entity through one access path (direct, link lists, role links, metadata, dimension link, old handles) and read it through all others in the same session and after restart; dimension links follow the target; refused appends (wrong kind, foreign block with/without namesake) leave the list unchanged", "4 C05"),
+ "C05": ("exploration", "mutate an entity through one access path (direct, link lists, role links, metadata, dimension link, old handles, old descriptor objects) and read it through all others (same content, ==, hash) in the same session and after restart; dimension links follow the target; refused appends (wrong kind, foreign block with/without namesake) leave the list unchanged", "4 C05"),
  "C10": ("exploration", "property value histories (assign/extend/clear through scalars, lists, tuples, numpy arrays), refused candidates (other type, mixed with the odd element at any position, bool/int confusion), dict-style section API, restarts; typed-list reference model", "4 C10"),
  "C11": ("fault_enumeration", "read-only sessions on arbitrary generated files firing every kind of mutator with the simulated disk's write log armed (zero writes, bytes identical, reads equal the model and the RW view); overwrite / read-write / missing-file semantics; complete enumeration of the header grid (39 versions x 3 id states x 2 format tags x 3 modes) against a spec function transcribed from the property, random grid cells after random histories, and a real-file gate cross-check (refused ReadWrite open followed by a ReadOnly session on the same real path)", "4 C11"),
  "C12": ("fault_enumeration", "catalogue of (call site x class of invalid argument) cells, each instantiated against the current model at random points of valid histories; a call that raises must leave explicit+introspective walks (with timestamps) identical and the name reusable by a valid retry", "4 C12"),
- "C13": ("exploration", "section and source trees with names reused across levels and subtrees, metadata/source links from every kind; find_* from every root with every limit and filter vs. model BFS; parent / parent_source / parent_block asked on handles of every provenance (created, looked up, via link, found, after restart); referring_* vs. inverse of the model's link relation", "4 C13"),
- "C15": ("exploration", "calibration histories (set / change / clear coefficients and origin, raw writes while calibrated) on numeric arrays of every element type; every read path (whole, element, slices, np.array, read_direct, iteration, index-mode views, tag and feature regions via a metamorphic check) must equal the Horner polynomial of the model's raw values in double precision; the stored raw dataset is peeked after every op", "4 C15"),
+ "C13": ("exploration", "section and source trees with names reused across levels and subtrees, metadata/source links from every kind; find_* from every root with every limit and filter vs. model BFS, find_related; parent / parent_source / parent_block asked on handles of every provenance (created, looked up, via link, found, after restart); referring_* vs. inverse of the model's link relation", "4 C13"),
+ "C15": ("exploration", "calibration histories (set / change / clear coefficients and origin, raw writes while calibrated) on numeric arrays of every element type; every read path (whole, element, slices, np.array, read_direct, iteration, index-mode views incl. ones obtained earlier, and - via a metamorphic check - tag, multi-tag and feature regions and data-coordinate views) must equal the Horner polynomial of the model's raw values in double precision; the stored raw dataset is peeked after every op", "4 C15"),
  "C16": ("exploration", "table histories over schemas of 1-6 typed columns: four creation variants, append_rows, append_column, write_rows / write_column / write_cell by index and name (first and last included), units, refused writes, restarts right after structural changes; list-of-typed-columns reference model; every read path compared", "4 C16"),
  "C18": ("fault_enumeration", "old-format files (1.0.x / 1.1.x / 1.2.0, with and without file id, compound property layout with per-value extras, alias range dimensions) produced from generated content; uninterrupted upgrade, then a kill at every write-mode open of the upgrade tool followed by a re-run (and sampled double kills), compared with the uninterrupted result and with what the old readers showed; no-op upgrades must not write a byte", "4 C18"),
  "C20": ("exploration", "copy experiments after generated histories: every copyable kind x id policy x new name x same / other parent x same / other file; completeness (copy walk == source walk), id policy (kept, or fresh + unique + disjoint), returned handle, refusal of an existing name without side effects, links inside a copied block alias the copied entities, independence under mutation of either side", "4 C20"),
@@ -44,7 +44,7 @@ for pid in props:
         "replay_cmd_template": "/verif/bin/vcheck --replay {path}",
         "engine": "nixsim",
         "level_claimed": {"category": level, "text": text, "design_ref": "DESIGN.md section " + ref},
-        "level_note": "sampled, bounded histories (<= 50 ops quick / 90 thorough, extents <= 6); known findings F14 (stale handles) and F20 (keep-id same-file copy + delete) are masked in generation (known_findings.json); trusted: reference model and walkers (nixsim/model.py, walk.py), numpy, h5py fileobj driver; the HDF5 virtual file driver, wall clock and uuid source are simulated, everything else (nixio, h5py, libhdf5) is the real code from /repo's working tree",
+        "level_note": "sampled, bounded histories (<= 50 ops quick / 90 thorough, extents <= 6); known finding F14 (stale handles) is masked in generation (known_findings.json); trusted: reference model and walkers (nixsim/model.py, walk.py), numpy, h5py fileobj driver; the HDF5 virtual file driver, wall clock and uuid source are simulated, everything else (nixio, h5py, libhdf5) is the real code from /repo's working tree",
         "technique": "deterministic simulation with fault injection: seeded op/fault sequences on simulated disk, clock and id source, reference-model and before/after oracles, ddmin-minimised replay files",
     })
 na = [{"property_id": k, "reason": v} for k, v in NA.items()]
